@@ -79,10 +79,10 @@ def probes_for(file, header, fn, pid=None):
     if f.startswith("src/ark_curve/r1cs"):
         # C14 is about adversarial hints only; C13 about the honest prover
         if pid == "C14":
-            return [("r1cs", "r1cs.hints")]
+            return [("r1cs", "r1cs.hints"), ("r1cs", "r1cs.alloc")]
         if pid == "C13":
-            return [("r1cs", "r1cs.d6")]
-        return [("r1cs", "r1cs.d6"), ("r1cs", "r1cs.hints")]
+            return [("r1cs", "r1cs.d6"), ("r1cs", "r1cs.lazy")]
+        return [("r1cs", "r1cs.d6"), ("r1cs", "r1cs.hints"), ("r1cs", "r1cs.lazy"), ("r1cs", "r1cs.alloc")]
     if f.endswith("ark_curve/encoding.rs") or f.endswith("ark_curve/serialize.rs"):
         if re.search(r'decompress|try_from|deserialize', fn) or "TryFrom" in h or "Deserialize" in h:
             return [("ark", "curve.decode")]
